@@ -42,10 +42,23 @@ type c02Case struct {
 	Overlap bool   // the Publish call for message 1 is held inside the publisher until the handlers of the other messages have returned
 	NoTopic bool   // the handler has a publisher and the publish topic "" (a topic like any other: the publisher decides what it means)
 	CloseTO bool   // Router.Close runs into its (short) CloseTimeout while the only invocation is still running; it then ends normally: the message is settled by that outcome
+	SamePS  bool   // one object is the handler's subscriber and its publisher, and the publish topic is the subscribe topic (the handler feeds itself)
+	CtxEnd  string // "" | handler | pre: the consumed message's own context is done by the time the router settles it (the handler ended it / it arrived that way); the settlement is by the outcome all the same
 	LateMsg bool   // the handler is stopped (Handler.Stop) while the source keeps its channel open; a message sent then is handled like any other or given up unsettled, never settled without the chain
 }
 
 var errScripted = errors.New("scripted failure")
+
+// one object that is a Subscriber and a Publisher
+type c02PubSub struct {
+	*scripted.Sub
+	pub *scripted.Pub
+}
+
+func (p *c02PubSub) Publish(topic string, msgs ...*message.Message) error {
+	return p.pub.Publish(topic, msgs...)
+}
+func (p *c02PubSub) Close() error { _ = p.pub.Close(); return p.Sub.Close() }
 
 func c02AllBehs(hasPub bool) []c02Beh {
 	var out []c02Beh
@@ -123,6 +136,27 @@ func runC02(c *Ctx) error {
 			cases = append(cases, c02Case{HasPub: true, Prefix: "none", NoTopic: true, Msgs: []c02Beh{{Self: "none", End: "ok", NOuts: n, Pub: p}}})
 		}
 	}
+	// (1g) the handler's publisher is its subscriber, the publish topic its subscribe topic
+	for _, n := range []int{1, 2} {
+		for _, p := range []string{"accept", "error", "panic"} {
+			cases = append(cases, c02Case{HasPub: true, Prefix: "none", SamePS: true, Msgs: []c02Beh{{Self: "none", End: "ok", NOuts: n, Pub: p}}})
+		}
+	}
+	// (1h) the consumed message's context is done at settlement
+	for _, hp := range []bool{true, false} {
+		for _, ce := range []string{"handler", "pre"} {
+			for _, end := range []string{"ok", "err"} {
+				b := c02Beh{Self: "none", End: end, Pub: "accept"}
+				if end == "err" {
+					b.ErrK = "plain"
+				}
+				if hp && end == "ok" {
+					b.NOuts = 1
+				}
+				cases = append(cases, c02Case{HasPub: hp, Prefix: "none", CtxEnd: ce, Msgs: []c02Beh{b}})
+			}
+		}
+	}
 	// (1e) Close times out while the invocation runs; the invocation's outcome still decides the settlement
 	for _, hp := range []bool{true, false} {
 		for _, end := range []string{"ok", "err"} {
@@ -193,6 +227,9 @@ func c02Run(r *tr.Run, cs c02Case, rng *rand.Rand) (gateReached bool) {
 	if cs.NoTopic {
 		ptopic = ""
 	}
+	if cs.SamePS {
+		ptopic = "in"
+	}
 	closeTimeout := 5 * time.Second
 	if cs.CloseTO {
 		closeTimeout = 60 * time.Millisecond
@@ -236,6 +273,9 @@ func c02Run(r *tr.Run, cs c02Case, rng *rand.Rand) (gateReached bool) {
 		b := beh[mid(msg.UUID)]
 		if cs.CloseTO {
 			<-waitOr(holdCh, HangBound)
+		}
+		if cs.CtxEnd == "handler" {
+			endCtx(msg)
 		}
 		switch b.Self {
 		case "ack":
@@ -410,7 +450,10 @@ func c02Run(r *tr.Run, cs c02Case, rng *rand.Rand) (gateReached bool) {
 		return nil
 	}
 	hname := prefix + "h"
-	if cs.HasPub {
+	if cs.SamePS {
+		both := &c02PubSub{Sub: sub, pub: pub}
+		handle = router.AddHandler(hname, "in", both, ptopic, both, handler)
+	} else if cs.HasPub {
 		handle = router.AddHandler(hname, "in", sub, ptopic, pub, handler)
 	} else {
 		handle = router.AddNoPublisherHandler(hname, "in", sub, func(msg *message.Message) error {
@@ -441,6 +484,9 @@ func c02Run(r *tr.Run, cs c02Case, rng *rand.Rand) (gateReached bool) {
 		ctxMu.Lock()
 		cancels[prefix+m] = mcancel
 		ctxMu.Unlock()
+		if cs.CtxEnd == "pre" {
+			mcancel()
+		}
 	}
 	if cs.Gate != "" {
 		gate = sched.Park(cs.Gate, prefix+"m1")
